@@ -596,7 +596,9 @@ def hist_expand(hist):
         ok, label = hist_step(s, ref, op, viols)
         key = None
         if ok:
-            key = (hist_key(s), ref.base)
+            # (the reference's arrays are part of the key: whether an array exists cannot be observed without creating
+            # it, so a state where implementation and reference disagree about that must still be expanded)
+            key = (hist_key(s), ref.base, tuple(sorted((n, d) for n, (d, _) in ref.arrays.items())))
             hist_check_state(s, ref, viols)
         out.append((i, key, viols, label + '/' + ref.base))
     return out
